@@ -917,6 +917,9 @@ def delete_pointless_statements(source: str) -> str:
     # Where _ is read, as in the gettext idiom, what binds it is not pointless
     underscore_is_read = any(core.walk(ast_tree, ast.Name(id="_", ctx=ast.Load)))
     for node in itertools.chain([ast_tree], parsing.iter_bodies_recursive(ast_tree)):
+        # What is tried may be there for the exception that it raises
+        if isinstance(node, ast.Try) and node.handlers:
+            continue
         for i, child in enumerate(node.body):
             if not core.has_side_effect(child, safe_callables):
                 if underscore_is_read and (
